@@ -9,5 +9,8 @@ PROPS = {}
 NOT_YET = {}
 for _f in sorted(os.listdir(_d)):
     if _f.endswith(".py") and _f[0] == "C":
-        _m = importlib.import_module(_f[:-3])
-        PROPS[_f[:-3]] = _m.CFG
+        try:
+            _m = importlib.import_module(_f[:-3])
+            PROPS[_f[:-3]] = _m.CFG
+        except Exception as _e:  # a broken configuration must only affect its own property
+            sys.stderr.write("propcfg %s does not load: %r\n" % (_f, _e))
